@@ -32,6 +32,10 @@ class ScriptError(Exception):
     """args = (kind, id) -- failures injected by scripts."""
 
 
+class ScriptAbort(BaseException):
+    """Same, but derived from BaseException only (Event.fail accepts any BaseException); ops with b = 1 use it."""
+
+
 def V(k, a=0, s=()):
     return {"k": k, "a": int(a), "s": [int(x) for x in s]}
 
@@ -84,7 +88,7 @@ class Machine:
             if isinstance(c, tuple) and c and c[0] == "i":
                 return V("intr", c[1], [c[2]])
             return self.enc_cause(c)
-        if isinstance(v, ScriptError):
+        if isinstance(v, (ScriptError, ScriptAbort)):
             return V(v.args[0], v.args[1])
         if isinstance(v, BaseException):
             return V(type(v).__name__)
@@ -211,7 +215,11 @@ class Machine:
             return None
         if k == "timeout" or k == "sleep":
             uid = len(self.events)
-            ev = env.timeout(self.fl["delays"][o["a"] - 1] if self.fl is not None else o["a"], value=("v", uid))
+            try:
+                ev = env.timeout(self.fl["delays"][o["a"] - 1] if self.fl is not None else o["a"], value=("v", uid))
+            except ValueError:
+                self.L("E", P, False, V("ValueError"))          # negative delay refused
+                return None
             self.reg(ev, "to")
             return ev if k == "sleep" else None
         if k == "baddelay":
@@ -229,7 +237,7 @@ class Machine:
                 if k == "succeed":
                     ev.succeed(("v", o["a"]))
                 else:
-                    ev.fail(ScriptError("x", o["a"]))
+                    ev.fail((ScriptAbort if o.get("b") == 1 else ScriptError)("x", o["a"]))
             except RuntimeError:
                 self.L("E", P, False, V("RuntimeError"))
             return None
@@ -257,7 +265,12 @@ class Machine:
             from onl.sim import Environment
             other = Environment()
             try:
-                env.any_of([other.event()])
+                if o.get("b") == 1:
+                    fe = other.timeout(0)           # a foreign operand that has already been processed over there
+                    other.run()
+                    env.any_of([fe])
+                else:
+                    env.any_of([other.event()])
             except ValueError:
                 self.L("E", P, False, V("ValueError"))
             return None
@@ -344,7 +357,7 @@ class Machine:
             if k == "return":
                 return ("ret", pid)
             if k == "raise":
-                raise ScriptError("exc", pid)
+                raise (ScriptAbort if o.get("b") == 1 else ScriptError)("exc", pid)
             ev = None
             if k == "yield":
                 if self.valid(o, pid):
@@ -469,7 +482,8 @@ def rankify(log, fl):
     U = set(base) | {float(u) for u in fl["untils"]}
     for t in base:
         for d in fl["delays"]:
-            U.add(t + d)
+            if d >= 0:
+                U.add(t + d)
     order = sorted(U)
     rank = {x: i for i, x in enumerate(order)}
     out = []
@@ -478,8 +492,9 @@ def rankify(log, fl):
         if e["v"]["k"] == "peek" and e["v"]["a"] != -1:
             e["v"] = dict(e["v"], a=rank[float(e["v"]["a"])])
         out.append(e)
-    plus = [[rank[x + d] if x in base else 0 for d in fl["delays"]] for x in order]
-    return out, {"on": True, "plus": plus, "unt": [rank[float(u)] for u in fl["untils"]]}
+    plus = [[rank[x + d] if (x in base and d >= 0) else 0 for d in fl["delays"]] for x in order]
+    return out, {"on": True, "plus": plus, "unt": [rank[float(u)] for u in fl["untils"]],
+                 "neg": [1 if d < 0 else 0 for d in fl["delays"]]}
 
 
 def run_program(prog, env_factory=None, resources=None):
@@ -556,7 +571,7 @@ class Chooser:
             if k in ("succeed", "fail"):
                 c_ = self.users(("ev",))
                 if c_:
-                    return {"k": k, "a": rng.choice(c_), "b": 0, "c": 0, "s": []}
+                    return {"k": k, "a": rng.choice(c_), "b": 1 if (k == "fail" and rng.random() < 0.3) else 0, "c": 0, "s": []}
             if k == "spawn" and len(m.procs) - 1 < g["max_procs"] and len(m.events) + 1 < g["max_events"]:
                 return {"k": k, "a": 0, "b": 1 if rng.random() < g.get("spawn_noprobe", 0.3) else 0, "c": 0, "s": []}
             if k == "interrupt" and room and len(m.procs) > 1:
@@ -571,7 +586,7 @@ class Chooser:
                 if u:
                     return {"k": k, "a": rng.choice(u), "b": 0, "c": c, "s": []}
             if k in ("baddelay", "condforeign"):
-                return {"k": k, "a": 0, "b": 0, "c": 0, "s": []}
+                return {"k": k, "a": 0, "b": rng.choice([0, 1]), "c": 0, "s": []}
             if k == "request" and room and count <= g["max_ops"] - 2:
                 rs = [r for r in range(1, len(m.resources)) if m.rkinds[r] in ("res", "prio", "preempt") and not self.outstanding(P, r)]
                 if rs:
@@ -601,7 +616,7 @@ class Chooser:
                 if u:
                     return dict(Z, k="yield", a=rng.choice(u), c=1)
             if k == "raise" and not is_top:
-                return {"k": k, "a": 0, "b": 0, "c": 0, "s": []}
+                return {"k": k, "a": 0, "b": 1 if rng.random() < 0.3 else 0, "c": 0, "s": []}
             if k == "return" and not is_top and not (g.get("resources") and self.holds_any(P)):
                 return {"k": k, "a": 0, "b": 0, "c": 0, "s": []}
             if is_top and k in ("run", "step"):
